@@ -197,6 +197,15 @@ inline std::vector<R> genGrid(Rng &g, bool wellScaled, size_t minPts,
     x += w;
     pts.push_back(x);
   }
+  // exact runs: now and then one interval is squeezed to a relative width of
+  // about 2^-110 (two distinct points far closer than any floating type could
+  // tell apart - still a perfectly valid strictly increasing grid)
+  if (g.chance(1, 8) && n >= 3) {
+    const size_t k = (size_t)g.range(0, (int64_t)n - 2);
+    const R tiny = R(1) / R(vq::Z(1) << 90);
+    const R shift = pts[k + 1] - pts[k] - tiny;
+    for (size_t i = k + 1; i < n; i++) pts[i] -= shift;
+  }
   return pts;
 }
 
